@@ -83,14 +83,15 @@ VARIABLES
   faultedHeads,  \* [Heads -> Nat]   0 = not quarantined   faulted_heads
   runtimeFault,  \* Nat              0 = none              runtime_fault
   armed,         \* BOOLEAN          environment: faulty intents fault during the next pass
-  commitLog,     \* Seq of <<head, intent>>  history: every (head, intent) commit that survived its pass
+  lastCommitGt,  \* Nat: global tick of the latest pass that left a provenance entry (what a restart recovers)
+  commitCount,   \* [Heads \X Intents -> Nat] history: how often (head, intent) was committed by a pass that survived
   prev,          \* snapshot of the state before the last action (history, for the pass invariants)
   last           \* observable result of the last action
 
 core == <<tick, tickMax, committed, events, globalTick, gtMax, prov, provAhead, elig, policy, pending,
           witnessed, wpending, staged, corr, armed>>
 evidence == <<faults, faultedHeads, runtimeFault>>
-vars == <<core, evidence, commitLog, prev, last>>
+vars == <<core, evidence, lastCommitGt, commitCount, prev, last>>
 
 \* ---- small helpers ----------------------------------------------------------
 RECURSIVE SortHeads(_)
@@ -105,6 +106,10 @@ Range(f) == {f[x] : x \in DOMAIN f}
 Prefix(s, n) == [k \in 1..(IF n < Len(s) THEN n ELSE Len(s)) |-> s[k]]
 Upd(f, k, v) == [x \in DOMAIN f \cup {k} |-> IF x = k THEN v ELSE f[x]]
 Min(a, b) == IF a < b THEN a ELSE b
+RECURSIVE BagAdd(_, _)
+BagAdd(B, seq) == IF seq = <<>> THEN B
+                  ELSE LET x == Head(seq)
+                       IN BagAdd(Upd(B, x, IF x \in DOMAIN B THEN B[x] + 1 ELSE 1), Tail(seq))
 
 \* ---- inbox policy (head_inbox.rs) --------------------------------------------
 AcceptAll    == [t |-> "all"]
@@ -127,8 +132,8 @@ ResolveErr(tg) == IF tg.t = "default" THEN "MissingDefaultWriter"
 
 \* ---- bookkeeping for the history variables -------------------------------------
 Snapshot == [core |-> core, faults |-> faults, faultedHeads |-> faultedHeads, runtimeFault |-> runtimeFault,
-             logLen |-> Len(commitLog)]
-NoChange == UNCHANGED <<core, evidence, commitLog>>
+             commitCount |-> commitCount]
+NoChange == UNCHANGED <<core, evidence, lastCommitGt, commitCount>>
 Res(act, ok, err, extra) == [act |-> act, ok |-> ok, err |-> err] @@ extra
 
 (***************************************************************************)
@@ -159,7 +164,7 @@ Ingest(i, tg) ==
        /\ Witness(h, i)
        /\ last' = Res("ingest", TRUE, "", [disp |-> "Accepted", head |-> h, i |-> i])
        /\ UNCHANGED <<tick, tickMax, committed, events, globalTick, gtMax, prov, provAhead, elig, policy,
-                      staged, corr, armed, evidence, commitLog>>
+                      staged, corr, armed, evidence, lastCommitGt, commitCount>>
 
 \* WorldlineRuntime::submit_intent (witnessed history only; nothing enters an inbox)
 Submit(i, tg) ==
@@ -181,7 +186,7 @@ Submit(i, tg) ==
        /\ Witness(h, i)
        /\ last' = Res("submit", TRUE, "", [disp |-> "Accepted", head |-> h, i |-> i])
        /\ UNCHANGED <<tick, tickMax, committed, events, globalTick, gtMax, prov, provAhead, elig, policy,
-                      pending, staged, corr, armed, evidence, commitLog>>
+                      pending, staged, corr, armed, evidence, lastCommitGt, commitCount>>
 
 \* WorldlineRuntime::ingest_ticketed_invocation(submission of (h,i), ticket t, envelope i -> tg)
 \* (enabled only for a witnessed submission: the caller needs its submission id)
@@ -206,7 +211,7 @@ Stage(i, tg, t) ==
        /\ staged' = Upd(staged, <<h, i>>, t)
        /\ last' = Res("stage", TRUE, "", [disp |-> "Staged", head |-> h, i |-> i])
        /\ UNCHANGED <<tick, tickMax, committed, events, globalTick, gtMax, prov, provAhead, elig, policy,
-                      witnessed, wpending, corr, armed, evidence, commitLog>>
+                      witnessed, wpending, corr, armed, evidence, lastCommitGt, commitCount>>
 
 \* HeadInbox::set_policy on a registered head (verification seam): tightening a kind filter evicts
 SetPolicy(h, p) ==
@@ -215,7 +220,7 @@ SetPolicy(h, p) ==
   /\ pending' = [pending EXCEPT ![h] = {i \in @ : PolicyAccepts(p, i)}]
   /\ last' = Res("policy", TRUE, "", [head |-> h])
   /\ UNCHANGED <<tick, tickMax, committed, events, globalTick, gtMax, prov, provAhead, elig,
-                 witnessed, wpending, staged, corr, armed, evidence, commitLog>>
+                 witnessed, wpending, staged, corr, armed, evidence, lastCommitGt, commitCount>>
 
 \* WorldlineRuntime::set_head_eligibility (does not touch fault quarantine)
 SetEligibility(h, e) ==
@@ -223,32 +228,32 @@ SetEligibility(h, e) ==
   /\ elig' = [elig EXCEPT ![h] = e]
   /\ last' = Res("elig", TRUE, "", [head |-> h])
   /\ UNCHANGED <<tick, tickMax, committed, events, globalTick, gtMax, prov, provAhead, policy, pending,
-                 witnessed, wpending, staged, corr, armed, evidence, commitLog>>
+                 witnessed, wpending, staged, corr, armed, evidence, lastCommitGt, commitCount>>
 
 (***************************************************************************)
 (* Environment (fault injection)                                           *)
 (***************************************************************************)
 Arm(b) == /\ prev' = Snapshot /\ armed' = b /\ last' = Res("arm", TRUE, "", [v |-> b])
           /\ UNCHANGED <<tick, tickMax, committed, events, globalTick, gtMax, prov, provAhead, elig, policy,
-                         pending, witnessed, wpending, staged, corr, evidence, commitLog>>
+                         pending, witnessed, wpending, staged, corr, evidence, lastCommitGt, commitCount>>
 SetTickMax(w, b) == /\ prev' = Snapshot /\ tickMax' = [tickMax EXCEPT ![w] = b]
                     /\ last' = Res("tickmax", TRUE, "", [w |-> w, v |-> b])
                     /\ UNCHANGED <<tick, committed, events, globalTick, gtMax, prov, provAhead, elig, policy,
-                                   pending, witnessed, wpending, staged, corr, armed, evidence, commitLog>>
+                                   pending, witnessed, wpending, staged, corr, armed, evidence, lastCommitGt, commitCount>>
 SetGtMax(b) == /\ prev' = Snapshot /\ gtMax' = b /\ last' = Res("gtmax", TRUE, "", [v |-> b])
                /\ UNCHANGED <<tick, tickMax, committed, events, globalTick, prov, provAhead, elig, policy,
-                              pending, witnessed, wpending, staged, corr, armed, evidence, commitLog>>
+                              pending, witnessed, wpending, staged, corr, armed, evidence, lastCommitGt, commitCount>>
 \* a foreign (recorded-event) entry is appended at the tip of w / removed again by the operator
 ProvInject(w) == /\ ~provAhead[w] /\ prev' = Snapshot
                  /\ provAhead' = [provAhead EXCEPT ![w] = TRUE] /\ prov' = [prov EXCEPT ![w] = @ + 1]
                  /\ last' = Res("provinject", TRUE, "", [w |-> w])
                  /\ UNCHANGED <<tick, tickMax, committed, events, globalTick, gtMax, elig, policy,
-                                pending, witnessed, wpending, staged, corr, armed, evidence, commitLog>>
+                                pending, witnessed, wpending, staged, corr, armed, evidence, lastCommitGt, commitCount>>
 ProvRepair(w) == /\ provAhead[w] /\ prev' = Snapshot
                  /\ provAhead' = [provAhead EXCEPT ![w] = FALSE] /\ prov' = [prov EXCEPT ![w] = @ - 1]
                  /\ last' = Res("provrepair", TRUE, "", [w |-> w])
                  /\ UNCHANGED <<tick, tickMax, committed, events, globalTick, gtMax, elig, policy,
-                                pending, witnessed, wpending, staged, corr, armed, evidence, commitLog>>
+                                pending, witnessed, wpending, staged, corr, armed, evidence, lastCommitGt, commitCount>>
 
 (***************************************************************************)
 (* One scheduler pass: SchedulerCoordinator::super_tick_inner              *)
@@ -330,7 +335,7 @@ CommitHead(S, h, adm, gt) ==
                   THEN [ok |-> FALSE, S |-> c.S, err |-> "ReceiptCorrelationReplayMismatch", scope |-> RuntimeScope]
                   ELSE [ok |-> TRUE, S |-> c.S,
                         step |-> [head |-> h, n |-> Len(adm), adm |-> adm, tickAfter |-> c.S.tick[w], gt |-> gt,
-                                  rejected |-> rejected]]
+                                  rejected |-> rejected, pend |-> S.pending[h] \cup A, pol |-> policy[h]]]
 
 RECURSIVE RunHeads(_, _, _, _, _)
 RunHeads(S, ks, k, steps, gt) ==
@@ -355,7 +360,8 @@ RecordFault(scope) ==
 
 Install(S) == /\ tick' = S.tick /\ committed' = S.committed /\ events' = S.events /\ globalTick' = S.globalTick
               /\ prov' = S.prov /\ pending' = S.pending /\ corr' = S.corr /\ wpending' = S.wpending
-              /\ commitLog' = commitLog \o S.log
+              /\ commitCount' = BagAdd(commitCount, S.log)
+              /\ lastCommitGt' = (IF S.log # <<>> THEN S.globalTick ELSE lastCommitGt)
               /\ UNCHANGED <<tickMax, gtMax, provAhead, elig, policy, witnessed, staged, armed>>
 
 TickRes(ok, err, scope, steps, failHead, ks) ==
@@ -368,14 +374,14 @@ SuperTick ==
        /\ NoChange
      ELSE IF gtMax THEN                                           \* global tick pre-flight
        /\ last' = TickRes(FALSE, "GlobalTickOverflow", RuntimeScope, <<>>, None, Keys)
-       /\ RecordFault(RuntimeScope) /\ UNCHANGED <<core, commitLog>>
+       /\ RecordFault(RuntimeScope) /\ UNCHANGED <<core, lastCommitGt, commitCount>>
      ELSE
        LET ks == Keys
            over == {k \in 1..Len(ks) : CanAdmit(pending[ks[k]], policy[ks[k]]) /\ tickMax[WlOf(ks[k])]}
        IN IF over # {} THEN                                       \* frontier tick pre-flight, first such head
             LET h == ks[CHOOSE k \in over : \A j \in over : k <= j] IN
             /\ last' = TickRes(FALSE, "FrontierTickOverflow", HeadScope(h), <<>>, h, ks)
-            /\ RecordFault(HeadScope(h)) /\ UNCHANGED <<core, commitLog>>
+            /\ RecordFault(HeadScope(h)) /\ UNCHANGED <<core, lastCommitGt, commitCount>>
           ELSE
             LET cp == Checkpoint(Work, ks)
                 r == RunHeads(Work, ks, 1, <<>>, globalTick + 1)
@@ -401,7 +407,32 @@ ResolveFault(f) ==
           ELSE /\ faultedHeads' = [faultedHeads EXCEPT ![faults[f].scope[2]] = IF @ = f THEN 0 ELSE @]
                /\ UNCHANGED runtimeFault
        /\ last' = Res("resolve", TRUE, "", [f |-> f])
-       /\ UNCHANGED <<core, commitLog>>
+       /\ UNCHANGED <<core, lastCommitGt, commitCount>>
+
+(***************************************************************************)
+(* Restart: a fresh runtime (same worldlines, heads and policies) restored *)
+(* the way trusted_runtime_host.rs::enable_runtime_wal does it:            *)
+(* restore_witnessed_submission_persistence(snapshot) ;                    *)
+(* restore_causal_runtime_history(provenance, entries, correlations).      *)
+(* Inboxes, un-correlated ticketed staging and fault records are process   *)
+(* state and are gone; worldline states are replayed from provenance; the  *)
+(* committed-ingress ledger is rebuilt ONLY from receipt correlations      *)
+(* (worldline_state.rs: "not persisted across process restarts").          *)
+(***************************************************************************)
+CorrSubs == {c.sub : c \in corr}
+Restart ==
+  /\ \A w \in Worldlines : ~provAhead[w] /\ ~tickMax[w]
+  /\ ~gtMax
+  /\ prev' = Snapshot
+  /\ pending' = [h \in Heads |-> {}]
+  /\ committed' = [w \in Worldlines |-> {c.sub : c \in {d \in corr : d.w = w}}]
+  /\ staged' = [x \in DOMAIN staged \cap CorrSubs |-> staged[x]]
+  /\ wpending' = witnessed \ CorrSubs
+  /\ globalTick' = lastCommitGt
+  /\ faults' = <<>> /\ faultedHeads' = [h \in Heads |-> 0] /\ runtimeFault' = 0
+  /\ elig' = [h \in Heads |-> IF elig[h] = "absent" THEN "absent" ELSE "admitted"]
+  /\ last' = Res("restart", TRUE, "", [x |-> 0])
+  /\ UNCHANGED <<tick, tickMax, events, gtMax, prov, provAhead, policy, witnessed, corr, armed, lastCommitGt, commitCount>>
 
 Init0 ==
   /\ tick = [w \in Worldlines |-> 0] /\ tickMax = [w \in Worldlines |-> FALSE]
@@ -412,7 +443,7 @@ Init0 ==
   /\ pending = [h \in Heads |-> {}]
   /\ witnessed = {} /\ wpending = {} /\ staged = [x \in {} |-> 0] /\ corr = {}
   /\ faults = <<>> /\ faultedHeads = [h \in Heads |-> 0] /\ runtimeFault = 0
-  /\ armed = TRUE /\ commitLog = <<>>
+  /\ armed = TRUE /\ commitCount = [x \in {} |-> 0] /\ lastCommitGt = 0
   /\ last = [act |-> "init", ok |-> TRUE, err |-> ""]
   /\ prev = Snapshot
 
@@ -434,7 +465,7 @@ StepHeads == [k \in 1..Len(last.steps) |-> last.steps[k].head]
 FailedPassChangesOnlyFaultEvidence ==
   Failed =>
     /\ core = prev.core
-    /\ Len(commitLog) = prev.logLen
+    /\ commitCount = prev.commitCount
     /\ Len(faults) \in {Len(prev.faults), Len(prev.faults) + 1}
     /\ Prefix(faults, Len(prev.faults)) = prev.faults
     /\ IF last.err = "SchedulerRuntimeFaultActive"
@@ -507,23 +538,23 @@ FaultIndexesConsistent ==
 (* C08 — ingress is content-addressed, idempotent and order-free           *)
 (***************************************************************************)
 \* an intent is committed at most once per writer head
-AtMostOncePerHead ==
-  \A j, k \in 1..Len(commitLog) : j # k => commitLog[j] # commitLog[k]
+AtMostOncePerHead == \A c \in DOMAIN commitCount : commitCount[c] <= 1
 \* what the ledger says is exactly what was committed
-CommittedIsLog == \A w \in Worldlines : committed[w] = {c \in Range(commitLog) : WlOf(c[1]) = w}
+CommittedIsLog == \A w \in Worldlines : committed[w] \subseteq {c \in DOMAIN commitCount : WlOf(c[1]) = w}
 \* pending is a set keyed by identity and never overlaps what the same head already committed;
 \* a kind filter never leaves a non-matching envelope pending
 PendingIsSet ==
   \A h \in Heads : /\ \A i \in pending[h] : <<h, i>> \notin committed[WlOf(h)]
                    /\ \A i \in pending[h] : PolicyAccepts(policy[h], i)
 \* every admitted batch is the id-ordered prefix of what was pending; budget n admits min(n, |pending|)
-AdmittedInIdOrder ==
-  IsTick => \A k \in 1..Len(last.steps) :
-    LET st == last.steps[k]  P == PrevPending(st.head)  p == PrevPolicy(st.head)  s == SortIntents(P)
+AdmittedOk(l) ==
+  \A k \in 1..Len(l.steps) :
+    LET st == l.steps[k]  P == st.pend  p == st.pol  s == SortIntents(P)
     IN /\ \A a, b \in 1..Len(st.adm) : a < b => IdRank(st.adm[a]) < IdRank(st.adm[b])
        /\ st.adm = Prefix(s, st.n)
        /\ st.n = (IF p.t = "budget" THEN Min(p.n, Cardinality(P)) ELSE Cardinality(P))
        /\ st.n > 0
+AdmittedInIdOrder == IsTick => AdmittedOk(last)
 \* receipt correlations exist only for committed, ticketed submissions and leave the pending index
 CorrelationsSound ==
   \A c \in corr : /\ c.sub \in DOMAIN staged /\ staged[c.sub] = c.t
